@@ -226,16 +226,16 @@ theorem emit_bound (cfg : Cfg) (t : Tok) (sep : Nat → Bytes) (j : Bytes) (b : 
       | some x' =>
         Run.pre (x' ++ (if cfg.join && countBounds rest > 0 then j else []))
           (emit cfg t sep j rest) := by
-  simp only [emit, boundTextS, renderS]
+  simp only [emit, boundTextS]
   cases resolve b t.numFields with
-  | some p => simp only [Option.bind_some]; split <;> simp_all
+  | some p => rfl
   | none =>
     cases b.fallback with
-    | some f => simp only [Option.bind_some]; split <;> simp_all
+    | some f => rfl
     | none =>
       cases cfg.fallback with
-      | some f => simp only [Option.bind_some]; split <;> simp_all
-      | none => simp
+      | some f => rfl
+      | none => rfl
 
 /-- a single index prints what its expansion prints -/
 theorem boundTextS_expand_single (cfg : Cfg) (t : Tok) (sep : Nat → Bytes) (b : UserBounds)
